@@ -1443,7 +1443,8 @@ impl Machine {
                 }
                 Instruction::JmpIfNeg(cond, offset) => {
                     let cond_v = self.get_stack(cond as i64);
-                    if Self::get_as::<f64>(cond_v) <= 0.0 {
+                    // a condition is true when it is > 0.0 (NaN is false), as for &&, || and ! and on the other backends
+                    if !(Self::get_as::<f64>(cond_v) > 0.0) {
                         increment = offset;
                     }
                 }
